@@ -259,8 +259,9 @@ def run(tier):
     sc = scripts(tier)
     tasks = []
     lim = 4 if tier == "quick" else 10
-    for a in sc:
-        for b in sc:
+    for ia, a in enumerate(sc):
+        partners = sc if len(sc) <= 20 else [sc[(ia * 7 + j * (len(sc) // 12 + 1)) % len(sc)] for j in range(12)]
+        for b in partners:
             ms = interleavings(a, b, 400)
             step = max(1, len(ms) // lim)
             for m in ms[::step][:lim]:
